@@ -11,6 +11,8 @@ FRESH_CALLS = {'list', 'dict', 'set', 'tuple', 'sorted', 'str', 'len', 'int', 'b
 class Derived:
     """Derived-name analysis for one function.  `is_source(expr)` marks seed expressions."""
 
+    _cfg = None
+
     def __init__(self, func, is_source, extra_seeds=(), elements=True):
         self.elements = elements      # False: elements of a tracked container are immutable values (e.g. strings), only the container itself is tracked
         self.func = func
@@ -153,9 +155,46 @@ class Derived:
                     if isinstance(t, ast.Subscript) and self.derived(t.value):
                         out.append((n, 'del %s' % unparse(t)))
             elif isinstance(n, ast.Call) and isinstance(n.func, ast.Attribute) and n.func.attr in MUTATORS:
-                if self.derived(n.func.value) and not self._only_exclusive_holder(n.func.value, n):
+                if self.derived(n.func.value) and not self._only_exclusive_holder(n.func.value, n) and not self._held_only_later(n.func.value, n):
                     out.append((n, '%s on %s' % (n.func.attr, unparse(n.func.value))))
         return out
+
+    def _held_only_later(self, recv, node):
+        """The receiver is `holder[key]` and is tracked only because the tracked value is stored into `holder` somewhere in this function (flow-insensitive
+        fact).  If no store site can reach `node` in the control-flow graph, the holder does not contain the tracked value yet when `node` runs."""
+        if not isinstance(recv, ast.Subscript) or self.derived(recv.value) or self.is_source(recv):
+            return False
+        c = attr_chain(recv.value)
+        if c is None or c not in self.holders:
+            return False
+        sites = [s for (ch, k), ss in self.holder_sites.items() if ch == c for s in ss]
+        if not sites or len(sites) < len([1 for (ch, k) in self.holder_sites if ch == c]):
+            return False
+        try:
+            from .cfg import CFG
+            if self._cfg is None:
+                self._cfg = CFG(self.func, exc_edges=False)
+            cfg = self._cfg
+
+            def stmt_of(x):
+                while x is not None and not isinstance(x, ast.stmt):
+                    x = getattr(x, '_parent', None)
+                return x
+            tn = cfg.nodes_of(stmt_of(node))
+            if not tn:
+                return False
+            for s in sites:
+                sn = cfg.nodes_of(stmt_of(s))
+                if not sn:
+                    return False
+                starts = set()
+                for x in sn:
+                    starts |= set(x.succ)
+                if any(t in cfg.reachable(list(starts)) for t in tn):
+                    return False
+            return True
+        except Exception:      # noqa: BLE001 -- any doubt: keep the (conservative) flow-insensitive answer
+            return False
 
     def _only_exclusive_holder(self, recv, node):
         """The receiver is `holder[const]` whose only tracked stores sit in branches mutually exclusive with
